@@ -34,13 +34,40 @@ def sh(cmd, timeout=None, env=None):
         return 124, (e.stdout or b"").decode(errors="replace") if isinstance(e.stdout, bytes) else (e.stdout or "")
 
 
+RANGES = {}
+
+
 def anchored_files(prop):
+    """files of the property; RANGES[file] = line ranges named by anchors.mechanism (the property's own code in shared files)"""
     for line in open(os.path.join(VERIF, "properties.jsonl")):
         d = json.loads(line)
         if d["id"] == prop:
             fs = [f for f in d["anchors"]["files"] if os.path.isfile(os.path.join(REPO, f)) and re.search(r"\.(c|h)$", f)]
-            return fs
+            for m in d["anchors"]["mechanism"]:
+                cur = None
+                for tok in re.split(r",\s*", m["where"]):
+                    mm = re.match(r"^(\S+\.[ch]):(\d+)(?:-(\d+))?", tok)
+                    if mm:
+                        cur = mm.group(1)
+                        RANGES.setdefault(cur, []).append((int(mm.group(2)), int(mm.group(3) or mm.group(2))))
+                    else:
+                        mm = re.match(r"^(\d+)-(\d+)", tok)
+                        if mm and cur:
+                            RANGES[cur].append((int(mm.group(1)), int(mm.group(2))))
+            keep = []
+            for f in fs:
+                base = os.path.basename(f)
+                if f in RANGES or base not in ("a.h", "a.c", "math.h", "math.c", "str.c"):
+                    keep.append(f)
+            return keep
     raise SystemExit("unknown property")
+
+
+def in_ranges(path, line1):
+    rs = RANGES.get(path)
+    if not rs:
+        return True
+    return any(lo - 6 <= line1 <= hi + 12 for lo, hi in rs)
 
 
 RULES = [
@@ -154,6 +181,7 @@ def run_mutant(wt, mut):
         else:
             rec["status"] = "check-broken"
             rec["tail"] = out[-600:]
+            rec["broken"] = [ln[:400] for ln in out.splitlines() if "BROKEN" in ln or "Broken" in ln][:3]
         return rec
     finally:
         open(full, "w").write(orig)
@@ -164,7 +192,7 @@ def main():
     files = [f for f in args.files.split(",") if f] or anchored_files(args.prop)
     cands = []
     for f in files:
-        cands += candidates(f)
+        cands += [c for c in candidates(f) if in_ranges(c[0], c[1] + 1)]
     rnd = random.Random(args.seed)
     rnd.shuffle(cands)
     # spread over kinds and files: round-robin by (file, kind)
